@@ -320,3 +320,19 @@ Fixpoint first_nonempty (l : list string) : string :=
   | [] => ""
   | a :: r => if String.eqb a "" then first_nonempty r else a
   end.
+
+(* ================= how long an HTTP fetch may take (round 6) =================
+   adjustURL (fetch.go:591-622) and fetchURL (:521-525), in milliseconds.  [sec_flag]/[tmo_flag] are
+   source.Seconds / source.Timeout (-1 = flag not given), [url_sec] the URL's own seconds= parameter
+   when it parses as an integer.  The duration is -seconds when positive, else the URL's value; the
+   timeout is -timeout when positive, else 1.5 x a positive duration, else 60 s; the http.Client is
+   given that timeout PLUS 5 s, and a source whose server answers within it is a fetched source. *)
+Definition fetch_timeout_ms (sec_flag tmo_flag : Z) (url_sec : option Z) : Z :=
+  let dur := if 0 <? sec_flag then sec_flag * 1000
+             else match url_sec with Some u => u * 1000 | None => sec_flag * 1000 end in
+  if 0 <? tmo_flag then tmo_flag * 1000
+  else if 0 <? dur then dur + dur / 2
+  else 60000.
+
+Definition client_allowance_ms (sec_flag tmo_flag : Z) (url_sec : option Z) : Z :=
+  fetch_timeout_ms sec_flag tmo_flag url_sec + 5000.
